@@ -1280,7 +1280,8 @@ def qft(dimensions: SpaceLike, *, dtype: LayerType = None) -> Qobj:
     arr = np.arange(N2)
     L, M = np.meshgrid(arr, arr)
     data = np.exp(phase * (L * M)) / np.sqrt(N2)
-    return Qobj(data, isherm=False, isunitary=True, dims=dims).to(dtype)
+    # The transforms on 1 and 2 states (1 and Hadamard) are Hermitian.
+    return Qobj(data, isherm=(N2 <= 2), isunitary=True, dims=dims).to(dtype)
 
 
 def swap(N: int, M: int, *, dtype: LayerType = None) -> Qobj:
